@@ -32,7 +32,7 @@ def load_check(cid: str):
 # of the working tree (simkit/mypyc_build.py).  Same plan, same PRNG state / tape; the child's tape, counters and
 # event-log digest are folded back into the parent's Sim so that the run stays one replayable execution.
 _CHILD = {"pid": None, "procs": {}}
-CHILD_LABEL = {"-O": "python -O", "mypyc": "mypyc build"}
+CHILD_LABEL = {"-O": "python -O", "mypyc": "mypyc build", "pbpy": "pure-Python protobuf backend"}
 
 
 def compiled_build() -> str | None:
@@ -61,8 +61,13 @@ def _opt_child(kind: str = "-O"):
         env = dict(os.environ, PYTHONHASHSEED="0", PYTHONDONTWRITEBYTECODE="1")
         env.pop("PYTHONOPTIMIZE", None)
         args = [sys.executable, "-B"]
+        env.pop("PROTOCOL_BUFFERS_PYTHON_IMPLEMENTATION", None)
         if kind == "-O":
             args.insert(1, "-O")
+            env.pop("VERIF_COMPILED", None)
+        elif kind == "pbpy":
+            # protobuf's pure-Python implementation instead of upb (what platforms without a binary wheel run)
+            env["PROTOCOL_BUFFERS_PYTHON_IMPLEMENTATION"] = "python"
             env.pop("VERIF_COMPILED", None)
         else:
             build = compiled_build()
@@ -111,6 +116,8 @@ def run_in_opt_child(mod, plan: dict, sim: Sim) -> dict:
         raise HarnessError("child interpreter does not run with -O")
     if kind == "mypyc" and not resp.get("compiled"):
         raise HarnessError("child interpreter did not import the mypyc build")
+    if kind == "pbpy" and resp.get("protobuf") != "python":
+        raise HarnessError(f"child interpreter uses protobuf backend {resp.get('protobuf')}")
     if sim.replay:
         sim.pos = resp["pos"]
     else:
@@ -119,7 +126,7 @@ def run_in_opt_child(mod, plan: dict, sim: Sim) -> dict:
         sim.count(k, v)
     for k, v in resp["faults"].items():
         sim.fault(k, v)
-    sim.count("python_O_runs" if kind == "-O" else "mypyc_build_runs")
+    sim.count({"-O": "python_O_runs", "mypyc": "mypyc_build_runs", "pbpy": "protobuf_python_backend_runs"}[kind])
     sim.seq += resp["seq"]
     sim._h.update(resp["digest"].encode())
     for v in resp["violations"]:
@@ -137,6 +144,8 @@ def cmd_opt_child() -> int:
     sys.stdout = sys.stderr
     from . import repo
     repo.setup()
+    from google.protobuf.internal import api_implementation
+    pb_backend = api_implementation.Type()
     for line in sys.stdin:
         msg = json.loads(line)
         mod = load_check(msg["cid"])
@@ -154,6 +163,7 @@ def cmd_opt_child() -> int:
             keys = sorted(hashlib.blake2b(repr(k1).encode("utf-8", "backslashreplace"), digest_size=8).hexdigest()
                           for k1 in ks)
         out.write(json.dumps({"optimize": sys.flags.optimize, "compiled": bool(os.environ.get("VERIF_COMPILED")),
+                              "protobuf": pb_backend,
                               "violations": res["violations"], "keys": keys,
                               "harness": res["harness"], "tape": sim.tape if not sim.replay else [],
                               "pos": sim.pos, "counters": sim.counters, "faults": sim.faults, "seq": sim.seq,
@@ -166,7 +176,7 @@ def cmd_opt_child() -> int:
 def run_plan(mod, plan: dict, sim: Sim) -> dict:
     """Execute one plan under ``sim``; returns {'violations','key','harness'}"""
     out = {"violations": [], "key": None, "harness": None}
-    if plan.get("interpreter") in ("-O", "mypyc"):
+    if plan.get("interpreter") in ("-O", "mypyc", "pbpy"):
         try:
             return run_in_opt_child(mod, plan, sim)
         except HarnessError as e:
@@ -203,6 +213,9 @@ def do_run(mod, seed: int, run: int, tier: str) -> tuple[dict, dict, Sim]:
     every = getattr(mod, "OPTIMIZED_EVERY", 0)
     if every and run % every == every - 1 and not os.environ.get("VERIF_NO_OPT_CHILD"):
         plan["interpreter"] = "-O"
+    every_p = getattr(mod, "PBPY_EVERY", 0)
+    if every_p and run % every_p == 6 and not os.environ.get("VERIF_NO_OPT_CHILD"):
+        plan["interpreter"] = "pbpy"
     every_c = getattr(mod, "COMPILED_EVERY", 0)
     if every_c and run % every_c == every_c // 2 and os.environ.get("VERIF_MYPYC_BUILD"):
         plan["interpreter"] = "mypyc"
@@ -530,6 +543,8 @@ def cmd_check(cid: str, tier: str) -> int:
         probe_names.append("python_O_runs")
     if getattr(mod, "COMPILED_EVERY", 0) and os.environ.get("VERIF_MYPYC_BUILD"):
         probe_names.append("mypyc_build_runs")
+    if getattr(mod, "PBPY_EVERY", 0):
+        probe_names.append("protobuf_python_backend_runs")
     zero_probes = [p for p in probe_names if not probes.get(p)]
     ev = {
         "property_id": cid, "tier": tier, "seed": seed, "level": mod.LEVEL,
@@ -558,7 +573,9 @@ def cmd_check(cid: str, tier: str) -> int:
             "components": getattr(mod, "COMPONENTS", {}),
             "build_variants": {
                 "interpreted working tree (this process)": tot["runs"] - probes.get("python_O_runs", 0)
-                - probes.get("mypyc_build_runs", 0),
+                - probes.get("mypyc_build_runs", 0) - probes.get("protobuf_python_backend_runs", 0),
+                "same tree with protobuf's pure-Python backend in a child interpreter":
+                    probes.get("protobuf_python_backend_runs", 0),
                 "same tree in a child interpreter started with python -O": probes.get("python_O_runs", 0),
                 "mypyc build of the same tree (the modules pyproject.toml compiles) in a child interpreter":
                     probes.get("mypyc_build_runs", 0),
